@@ -144,7 +144,7 @@ def run(chk):
             for cut_at in range(len(good)):
                 add(b, good[:cut_at], 'multipart/form-data; boundary=' + b.decode(), rng.choice([7, 64, 1000]), 'forms+files', 'trunc@%d' % cut_at, 'mutated')
     # JSON and urlencoded and arbitrary bytes under other content types
-    jsons = [b'{', b'[1]', b'3', b'', b'null', b'"s"', b'{"a": 1}', b'{"a": [1, {"b": null}]}', b'\xff\xfe', b'{"a":' + b'[' * 50, b'{"a": 1}x', b' ', b'true',
+    jsons = [b'NaN', b'[Infinity]', b'{"a": -Infinity}', b'{"a": NaN, "b": 1}', b'[1, NaN]', b'{', b'[1]', b'3', b'', b'null', b'"s"', b'{"a": 1}', b'{"a": [1, {"b": null}]}', b'\xff\xfe', b'{"a":' + b'[' * 50, b'{"a": 1}x', b' ', b'true',
              b'{"k": "' + b'v' * 300 + b'"}', b'[' * 5000]
     ctypes = ['application/json', 'application/json; charset=utf-8', 'APPLICATION/JSON', 'application/x-www-form-urlencoded', 'text/plain', '',
               'application/jsonx', 'multipart/form-data']
